@@ -293,7 +293,7 @@ fn check(run: &Run, dropped_client: bool, desc: &str) -> Vec<String> {
             }
         }
         if run.dropped_unresolved[k] && !run.reply_injected[k] && !reqs.is_empty() && cancels.is_empty() && run.dispatch_done.is_none() {
-            errs.push(format!("C03: call {k} was abandoned, its request was transmitted and no cancellation followed; wire {wire:?}; {desc}"));
+            errs.push(format!("C03/C11: call {k} was abandoned, its request was transmitted and no cancellation followed (its entry and timer stay tracked at both ends until the deadline); wire {wire:?}; {desc}"));
         }
     }
     if dropped_client {
